@@ -116,17 +116,26 @@ struct Rec : public CValidationInterface {
     std::vector<uint256> chain; // replayed from callbacks
     std::set<uint256> pool;     // mempool content replayed from callbacks (txids)
     std::string err;
+    // Property-level monitors only: a removal may only be reported for a transaction that was reported added and
+    // not reported removed since; a transaction reported removed "for block" must be in that block. Completeness of
+    // the notifications (e.g. equality of the replayed and the real mempool) is NOT demanded: the property does not,
+    // and MempoolTransactionsRemovedForBlock is deliberately not fired during initial block download.
     void TransactionAddedToMempool(const NewMempoolTransactionInfo& tx, uint64_t) override
     {
-        if (!pool.insert(tx.info.m_tx->GetHash().ToUint256()).second) err += "TransactionAddedToMempool twice for " + tx.info.m_tx->GetHash().ToString().substr(0, 10) + "; ";
+        pool.insert(tx.info.m_tx->GetHash().ToUint256());
     }
     void TransactionRemovedFromMempool(const CTransactionRef& tx, MemPoolRemovalReason, uint64_t) override
     {
-        if (!pool.erase(tx->GetHash().ToUint256())) err += "TransactionRemovedFromMempool for " + tx->GetHash().ToString().substr(0, 10) + " which was never announced as added; ";
+        if (!pool.erase(tx->GetHash().ToUint256())) err += "TransactionRemovedFromMempool for " + tx->GetHash().ToString().substr(0, 10) + " which was never reported as added (or already reported removed); ";
     }
-    void MempoolTransactionsRemovedForBlock(const std::shared_ptr<const CBlock>&, const std::vector<RemovedMempoolTransactionInfo>& txs, unsigned int) override
+    void MempoolTransactionsRemovedForBlock(const std::shared_ptr<const CBlock>& block, const std::vector<RemovedMempoolTransactionInfo>& txs, unsigned int) override
     {
-        for (auto& t : txs) if (!pool.erase(t.info.m_tx->GetHash().ToUint256())) err += "MempoolTransactionsRemovedForBlock lists " + t.info.m_tx->GetHash().ToString().substr(0, 10) + " which was never announced as added; ";
+        for (auto& t : txs) {
+            if (!pool.erase(t.info.m_tx->GetHash().ToUint256())) err += "MempoolTransactionsRemovedForBlock lists " + t.info.m_tx->GetHash().ToString().substr(0, 10) + " which was never reported as added (or already reported removed); ";
+            bool in_block = false;
+            for (auto& bt : block->vtx) in_block |= bt->GetHash() == t.info.m_tx->GetHash();
+            if (!in_block) err += "MempoolTransactionsRemovedForBlock lists a transaction that is not in the block; ";
+        }
     }
     void BlockConnected(const kernel::ChainstateRole&, const std::shared_ptr<const CBlock>& block, const CBlockIndex* pindex) override
     {
@@ -166,24 +175,15 @@ int main(int argc, char** argv)
             p.depth = vx::thorough() ? 4 : 3;
             s.max_new_blocks = p.depth;
             s.cursor_check = false;
+            s.leave_ibd = true; // MempoolTransactionsRemovedForBlock is only fired outside initial block download
             p.budget_frac = 0.4;
             rec = new a::Rec();
             s.n.m_node.validation_signals->RegisterValidationInterface(rec);
             s.extra_check = [&s](const std::string& e) {
                 if (!rec->err.empty()) { s.fs.report("C63-notification-inconsistent", "after '" + e + "': " + rec->err); rec->err.clear(); }
-                {
-                    std::set<uint256> real;
-                    for (auto& info : s.n.pool().infoAll()) real.insert(info.tx->GetHash().ToUint256());
-                    if (real != rec->pool) {
-                        std::string d;
-                        for (auto& t : real) if (!rec->pool.count(t)) d += " in-pool-but-never-announced:" + t.ToString().substr(0, 10);
-                        for (auto& t : rec->pool) if (!real.count(t)) d += " announced-but-not-in-pool:" + t.ToString().substr(0, 10);
-                        s.fs.report("C63-mempool-notifications-differ", "after '" + e + "': the mempool replayed from TransactionAddedToMempool / RemovedFromMempool / RemovedForBlock differs from the real mempool:" + d);
-                    }
-                }
                 if (!rec->chain.empty() && rec->chain.back() != s.n.tip()->GetBlockHash()) s.fs.report("C63-replayed-tip-differs", "after '" + e + "': replaying BlockConnected/BlockDisconnected gives tip " + rec->chain.back().ToString().substr(0, 12) + " but the node's tip is " + s.n.tip()->GetBlockHash().ToString().substr(0, 12));
             };
-            p.what = "part (a) oracle: replaying BlockConnected/BlockDisconnected notifications (registered before the base chain is built) reproduces the node's tip after every event, and the mempool replayed from TransactionAddedToMempool / TransactionRemovedFromMempool / MempoolTransactionsRemovedForBlock equals the real mempool (transactions enter through ProcessTransaction, leave in blocks, and return on reorgs)";
+            p.what = "part (a) oracle: replaying BlockConnected/BlockDisconnected notifications (registered before the base chain is built) reproduces the node's tip after every event, and every mempool removal notification (RemovedFromMempool / RemovedForBlock) refers to a transaction that was reported added and not yet reported removed, and to a transaction of the named block (transactions enter through ProcessTransaction, leave in blocks, return on reorgs; node outside IBD)";
             return p;
         });
         if (rc >= 0) return rc;
